@@ -8,7 +8,11 @@ def write_files(dirpath, nf, prints, big=False):
     paths = []
     for i in range(1, nf + 1):
         p = os.path.join(dirpath, "f%d.xml" % i)
-        body = "".join("<a>v%d_%d</a>" % (i, k) for k in range(1, (40 if big else 3))) if i in prints else "<b>none</b>"
+        # big: True = 39 records; an integer = that many records with a 48-character payload (blocks of several hundred KiB)
+        if big is True or not big:
+            body = "".join("<a>v%d_%d</a>" % (i, k) for k in range(1, (40 if big else 3))) if i in prints else "<b>none</b>"
+        else:
+            body = "".join("<a>v%d_%d_%s</a>" % (i, k, "x" * 48) for k in range(1, int(big) + 1)) if i in prints else "<b>none</b>"
         open(p, "w").write("<r>%s</r>" % body)
         paths.append(p)
     return paths
